@@ -58,6 +58,9 @@ CHECKS["C09"] = dict(cat="proof", tech=TECH,
 CHECKS["C10"] = dict(cat="proof", tech=TECH,
    text="Contract on EventKernel.event against fake generator/tracer/antenna/writer components with symbolic weights, viewing angles and model rejections: one receive per ray solution of each accepted particle, ray_paths/polarizations aligned with the received signals, EmptySignal on the delayed grid off-cone, propagate called with the kernel's interpolation setting, trigger forms, events_thrown; plus the interface obligation that every shipped path/tracer class accepts the kernel's keyword set.",
    note=PROOF_NOTE + " The scenario size is bounded (B); third-party components are uninterpreted (A4).", ref="§5 C10")
+CHECKS["C08"] = dict(cat="proof", tech=TECH,
+   text="Contracts on Antenna.apply_response (filtered copy times gains and efficiency, antenna factor exactly for fields, rejections, frame), on the antenna-coordinate transformation (invariance under common rotations about each axis, spherical coordinates of the frame components), dipole gains and AntennaSystem delegation.",
+   note=PROOF_NOTE + " Linearity composes the proved value-independence of the factor with C05's filter linearity (A5); the Butterworth response is N.", ref="§5 C08")
 NOT_YET = {}
 def main():
     props = [json.loads(l) for l in open(os.path.join(HERE, "properties.jsonl"))]
